@@ -1,15 +1,68 @@
 package main
 
-// Symbolic contract for math/big used by ParseDecimalChallengeRFC6287 (C17): filled in with C17.
+// Contract of math/big for ParseDecimalChallengeRFC6287 (C17): (*Int).SetString(s, 10)
+// succeeds exactly on an optional sign followed by one or more decimal digits and yields
+// an integer N; (*Int).Text(16) renders N as lower-case hexadecimal text without leading zeros
+// (a "-" first when N < 0).  The decimal->binary conversion itself is NOT modelled: the hex
+// digits of N are fresh symbolic hex digits x_0..x_{h-1} (x_0 != 0 unless h == 1), with h taken
+// from the harness case "hexlen".  Results therefore hold for every value N could have.
+
 type bigSym struct {
-	hexDigits []*Term // most significant first
-	valid     *Term
+	hexDigits []*Term // lower-case ASCII hex digits, most significant first
+	negative  *Term
 }
 
 func (e *Exec) bigSetStringSym(z *PtrV, s *StrV, base int) Value {
-	panic(e.unsupported("big.Int.SetString on symbolic text (contract not enabled)"))
+	if base != 10 {
+		panic(e.unsupported("big.Int.SetString symbolic with base != 10"))
+	}
+	tb := e.tb
+	bs := e.strBytes(s)
+	if len(bs) == 0 {
+		return &TupleV{E: []Value{&PtrV{}, tb.False()}}
+	}
+	isDigit := func(c *Term) *Term { return tb.And(tb.Ule(tb.Const(8, '0'), c), tb.Ule(c, tb.Const(8, '9'))) }
+	sign := tb.Or(tb.Eq(bs[0], tb.Const(8, '+')), tb.Eq(bs[0], tb.Const(8, '-')))
+	valid := tb.True()
+	for i, c := range bs {
+		if i == 0 {
+			if len(bs) > 1 {
+				valid = tb.And(valid, tb.Or(isDigit(c), sign))
+			} else {
+				valid = tb.And(valid, isDigit(c))
+			}
+			continue
+		}
+		valid = tb.And(valid, isDigit(c))
+	}
+	if !e.branch(valid, "big.SetString-valid") {
+		return &TupleV{E: []Value{&PtrV{}, tb.False()}}
+	}
+	h := int(e.caseVal("hexlen"))
+	ds := make([]*Term, h)
+	for i := range ds {
+		d := e.freshVar("bighex", 8)
+		ds[i] = d
+		isHex := tb.Or(isDigit(d), tb.And(tb.Ule(tb.Const(8, 'a'), d), tb.Ule(d, tb.Const(8, 'f'))))
+		e.addPCKind(isHex, 'a')
+		if i == 0 && h > 1 {
+			e.addPCKind(tb.Ne(d, tb.Const(8, '0')), 'a')
+		}
+	}
+	neg := tb.Eq(bs[0], tb.Const(8, '-'))
+	e.bigInts[z.c] = &bigVal{sym: &bigSym{hexDigits: ds, negative: neg}}
+	e.opaque["lastbig"] = e.bigInts[z.c].sym
+	return &TupleV{E: []Value{z, tb.True()}}
 }
 
 func (e *Exec) bigTextSym(b *bigSym, base int) Value {
-	panic(e.unsupported("big.Int.Text on symbolic value"))
+	if base != 16 {
+		panic(e.unsupported("big.Int.Text symbolic with base != 16"))
+	}
+	// "-" prefix for negative non-zero values: decided per path
+	isZero := e.tb.And(e.tb.Bool(len(b.hexDigits) == 1), e.tb.Eq(b.hexDigits[0], e.tb.Const(8, '0')))
+	if e.branch(e.tb.And(b.negative, e.tb.Not(isZero)), "big.Text-negative") {
+		return e.mkString(append([]*Term{e.tb.Const(8, '-')}, b.hexDigits...))
+	}
+	return e.mkString(append([]*Term{}, b.hexDigits...))
 }
